@@ -118,7 +118,12 @@ class FakeSocket:
         if self.reset:
             raise ConnectionResetError(errno.ECONNRESET, "Connection reset by peer")
         if self.peer.closed:
-            raise BrokenPipeError(errno.EPIPE, "Broken pipe")
+            # Linux: the first send() after the peer closed still succeeds (the bytes provoke a RST), later ones fail
+            if data and not self.sent_after_peer_close:
+                self.sent_after_peer_close = True
+                return len(data)
+            if data:
+                raise BrokenPipeError(errno.EPIPE, "Broken pipe")
         if not data:
             return 0
         n = len(data)
@@ -178,6 +183,7 @@ class FakeSocket:
         return bool(self.rx) or self.reset or (self.peer is not None and self.peer.closed) or self.state == "refused"
 
     blocked_until = 0.0
+    sent_after_peer_close = False
 
     def writable(self):
         return self.state in ("conn", "refused") and not self.closed and self.net.s.now >= self.blocked_until
